@@ -25,7 +25,7 @@ V18(x) == LET n == Len(x)  T(val) == TieTerm(Mult(x, val)) IN TieTerm(n) - SumSe
 \* continuity-corrected Z: sign and square
 ZSign(x) == LET s == Score(x) IN IF s > 0 THEN 1 ELSE IF s < 0 THEN -1 ELSE 0
 AbsI(a) == IF a < 0 THEN -a ELSE a
-ZSq(x) == LET s == Score(x) IN IF s = 0 THEN "0" ELSE RDiv(RInt(18 * (AbsI(s) - 1) * (AbsI(s) - 1)), RInt(V18(x)))
+ZSq(x) == LET s == Score(x) IN IF s = 0 THEN "0" ELSE RDiv(RMul("18", RMul(RInt(AbsI(s) - 1), RInt(AbsI(s) - 1))), RInt(V18(x)))   \* rationals: 18(|S|-1)^2 leaves TLC's 32-bit integers for n > ~150
 \* Sen's slope: median of all pairwise slopes
 SlopeOf(x, pr) == RDiv(RSub(x[pr[2]], x[pr[1]]), RInt(pr[2] - pr[1]))
 RankIn(S, e, Key(_)) ==    \* number of elements strictly smaller, and not larger
@@ -67,7 +67,7 @@ SenSlopeSorted(x) ==
         m == Len(srt)
     IN  IF m % 2 = 1 THEN srt[(m + 1) \div 2] ELSE RDiv(RAdd(srt[m \div 2], srt[m \div 2 + 1]), "2")
 TauFast(x) == RDiv(RInt(ScoreAlgo(x)), RInt(NPairs(Len(x))))
-ZSqFast(x) == LET s == ScoreAlgo(x) IN IF s = 0 THEN "0" ELSE RDiv(RInt(18 * (AbsI(s) - 1) * (AbsI(s) - 1)), RInt(V18Algo(x)))
+ZSqFast(x) == LET s == ScoreAlgo(x) IN IF s = 0 THEN "0" ELSE RDiv(RMul("18", RMul(RInt(AbsI(s) - 1), RInt(AbsI(s) - 1))), RInt(V18Algo(x)))
 ZSignFast(x) == LET s == ScoreAlgo(x) IN IF s > 0 THEN 1 ELSE IF s < 0 THEN -1 ELSE 0
 
 \* ---- normal distribution through a table: PT[k+1] = 2(1 - Phi(k/2000)), k = 0..KMAX
